@@ -2442,3 +2442,109 @@ def run_paths(make, fn, max_paths=8, **kw):
             r = e           # this path could not be evaluated to the end (the caller decides what that means)
         out.append((list(ev.taken), ev, r))
     return out
+
+
+# ---------------------------------------------------------------------------------------------------
+# numeric identity test of two symbolic expressions (a decision procedure for expression equality when the normal forms differ)
+# ---------------------------------------------------------------------------------------------------
+def numeric_value(ev, v, point):
+    """the number an expression denotes when its free symbols take the values of `point` (name -> float; missing names are drawn deterministically
+    from (0.5, 1.5)) and its opaque function symbols are the functions they stand for.  None when a symbol is neither."""
+    import math
+    import zlib
+
+    def var_value(name, depth):
+        if name == "pi":
+            return math.pi
+        if name in point:
+            return point[name]
+        op = ev.opaque.get(name)
+        if op is not None and depth < 40:
+            f, args = op
+            av = [num(a_, depth + 1) for a_ in args]
+            if any(a_ is None for a_ in av):
+                return None
+            try:
+                if f == "sqrt":
+                    if av[0] < 0:
+                        raise _Domain("sqrt of %g" % av[0])
+                    return math.sqrt(av[0])
+                if f in ("cos", "sin", "tan", "exp", "log", "acos", "asin", "atan"):
+                    return getattr(math, f)(av[0])
+                if f == "abs":
+                    return abs(av[0])
+                if f in ("arctan2", "atan2"):
+                    return math.atan2(av[0], av[1])
+                if f == "clip":
+                    return min(max(av[0], av[1]), av[2])
+                if f == "round":
+                    return float(round(av[0]))
+                if f == "cbrt":
+                    return math.copysign(abs(av[0]) ** (1.0 / 3), av[0])
+            except (ValueError, OverflowError) as e_:
+                raise _Domain("%s%s: %s" % (f, tuple(av), e_))
+            return None
+        for (f_, a_, r_) in ev.calls:
+            if isinstance(r_, Rat) and f_ in ("min", "max") and r_.poly() is not None and r_.vars() == {name}:
+                vals = [num(x_, depth + 1) for x_ in a_[0].data]
+                if any(x_ is None for x_ in vals):
+                    return None
+                return min(vals) if f_ == "min" else max(vals)
+        if "(" in name or "#" in name:
+            return None
+        lo_, hi_ = 0.5, 1.5
+        for pre_, rng_ in (point.get("__ranges") or {}).items():
+            if name.startswith(pre_):
+                lo_, hi_ = rng_
+        point[name] = lo_ + (hi_ - lo_) * (zlib.crc32((name + repr(point.get("__salt", 0))).encode()) % 100003) / 100003.0
+        return point[name]
+
+    def poly_value(p, depth):
+        tot = 0.0
+        for m, c in p.t.items():
+            term = float(c)
+            for var, e in m:
+                x = var_value(var, depth)
+                if x is None:
+                    return None
+                term *= x ** e
+            tot += term
+        return tot
+
+    def num(x, depth=0):
+        if isinstance(x, (int, float, Fraction)) and not isinstance(x, bool):
+            return float(x)
+        if not isinstance(x, Rat):
+            return None
+        n_, d_ = poly_value(x.n, depth), poly_value(x.d, depth)
+        if n_ is None or d_ is None or d_ == 0:
+            return None
+        return n_ / d_
+    return num(v)
+
+
+class _Domain(Exception):
+    """an expression has no real value at the point (sqrt of a negative number, acos outside [-1, 1])"""
+
+
+def numeric_equal(ev, a, b, points=3, rel=1e-9, ranges=None):
+    """True / False when the expressions can be evaluated at `points` generic points (equal at all of them within `rel` / different at one - also when
+    only one of them has a value there), else None.  ranges: {symbol-name prefix: (lo, hi)} of the values drawn for free symbols (default 0.5 .. 1.5)"""
+    for k in range(points):
+        pt = {"__salt": k, "__ranges": ranges or {}}
+        vals = []
+        for x_ in (a, b):
+            try:
+                vals.append(numeric_value(ev, ev.lift(x_), pt))
+            except _Domain:
+                vals.append("undefined")
+        va, vb = vals
+        if va is None or vb is None:
+            return None
+        if va == "undefined" or vb == "undefined":
+            if va == vb:
+                return None
+            return False
+        if abs(va - vb) > rel * max(1.0, abs(va), abs(vb)):
+            return False
+    return True
